@@ -118,3 +118,15 @@ def up_classification(cwd, extra_args=(), config=None):
         for d in (m.get('raw_descriptions') or {m['name']: 1}):
             res[d] = [m['name'], m['category'], m['subcategory'], sorted(m.get('tags', []))]
     return res
+
+
+def up_counts(cwd, extra_args=()):
+    """What `tally up` files where, per merchant: "name|category|subcategory" -> [tags, count, total, raw descriptions with counts]."""
+    r = run_tally(['up', '-q', '--format', 'json', '-v'] + list(extra_args), cwd=cwd)
+    if r['rc'] != 0:
+        return 'EXIT%d: %s' % (r['rc'], (r['err'].strip().splitlines() or ['?'])[0][:120])
+    js = parse_json_out(r['out'])
+    if js is None:
+        return 'NOJSON: ' + r['out'][:200]
+    return {'%s|%s|%s' % (m['name'], m['category'], m['subcategory']): [sorted(m.get('tags', [])), m.get('count'), round(m.get('total', 0), 2),
+                                                                      dict(sorted((m.get('raw_descriptions') or {}).items()))] for m in js['merchants']}
